@@ -60,6 +60,8 @@ def run(ctx):
     # ranks): the sets of partitionings then have several elements, whose iteration order matters
     import specgen_wide
     items += list(specgen_wide.wide_items(rng, 60 if q else 400))
+    # two flattenings of one tensor (declared ranks / bottom levels of shape-split ranks), in different partitioning waves
+    items += list(specgen_wide.wide_items(rng, 50 if q else 300, max_ranks=4, flatten_p=1.0, second_flatten_p=0.85, shape_p=0.6))
     items += popgen.accelerators()
     for _ in range(50 if q else 400):
         y, meta = specgen_metrics.gen(rng)
